@@ -519,7 +519,7 @@ pub fn gen_c03(sh: &mut Shards, o: &Opts) -> serde_json::Value {
             samples += 3 * idx.len() as u64;
             // more than 2^20 pixels (full HD, single row, single column, 2049x1025): every curve and direction gets one
             // shape per run (all four in thorough; every fifth pair in the thinned tier C20 uses)
-            let shapes: Vec<usize> = if o.thorough { vec![0, 1, 2, 3] } else if o.mini && (ti + di) % 5 != (o.seed as usize) % 5 { vec![] } else { vec![ti + di + o.seed as usize] };
+            let shapes: Vec<usize> = if o.thorough { vec![0, 1, 2, 3, 4] } else if o.mini && (ti + di) % 5 != (o.seed as usize) % 5 { vec![] } else { vec![ti + di + o.seed as usize] };
             for k in shapes {
                 let (hw, hh) = crate::util::huge(k);
                 let (px, w, h, mut idx) = big_frame_wh(o, &mut rng, hw, hh);
@@ -619,7 +619,7 @@ pub fn gen_c10(sh: &mut Shards, o: &Opts) -> serde_json::Value {
         crate::util::screen_idx(&mut idx, &whole, &px, &|c, cw, ch| apply(t, "lin", c, cw, ch).and_then(|m| apply(t, "gam", &m, cw, ch)));
         emit_tf_probe(sh, "tfrt", t, "rt", &px, w, h, &idx, whole);
         samples += 3 * idx.len() as u64;
-        let shapes: Vec<usize> = if o.thorough { vec![0, 1, 2, 3] } else if o.mini && ti % 5 != (o.seed as usize) % 5 { vec![] } else { vec![ti + 1 + o.seed as usize] };
+        let shapes: Vec<usize> = if o.thorough { vec![0, 1, 2, 3, 4] } else if o.mini && ti % 5 != (o.seed as usize) % 5 { vec![] } else { vec![ti + 1 + o.seed as usize] };
         for k in shapes {
             let (hw, hh) = crate::util::huge(k);
             let (px, w, h, mut idx) = big_frame_wh(o, &mut rng, hw, hh);
